@@ -484,7 +484,7 @@ def plan(tier, seed):
         me, tier, seed, nchunks=32,
         rule="every (operation, operand shapes, operand kinds) cell, each run under all its spellings (function / NumPy function / method / operator / reflected / "
         "augmented / out=Tensor / out=ndarray) with fresh operands and the same seed gradient; plus every registered non-differentiable function and the "
-        "rounding/modulo family x constant/non-constant x spelling",
+        "rounding/modulo family x constant/non-constant x spelling, and the comparison operators (all operand kinds, NaN/inf/ties/signed zeros) vs the NumPy functions",
         bounds={"binary": list(BIN), "unary": UN, "reductions": RED},
         assumptions=["operand gradients compared after rounding to 12 decimals (different spellings may associate the same float operations differently)"],
     )
